@@ -49,7 +49,7 @@ def search(item, seed):
     rnd = random.Random(seed * 7 + 2)
     for _ in range(60):
         case = ap.gen_scene(rnd)
-        case["thrs"] = [0.3, 0.9, 1.7, 3.0]
+        case["thrs"] = [0.0, 0.3, 0.9, 1.7, 3.0]
         try:
             why = check_scene(case)
         except Exception as ex:
